@@ -10,15 +10,21 @@ package connfake
 import (
 	"bytes"
 	"context"
+	"fmt"
+	"io"
 	"net"
+	"strings"
 	"sync"
 	"time"
 
 	"github.com/segmentio/kafka-go/protocol"
 	"github.com/segmentio/kafka-go/protocol/apiversions"
+	"github.com/segmentio/kafka-go/protocol/describeconfigs"
+	"github.com/segmentio/kafka-go/protocol/describegroups"
 	"github.com/segmentio/kafka-go/protocol/fetch"
 	"github.com/segmentio/kafka-go/protocol/findcoordinator"
 	"github.com/segmentio/kafka-go/protocol/heartbeat"
+	"github.com/segmentio/kafka-go/protocol/listgroups"
 	"github.com/segmentio/kafka-go/protocol/listoffsets"
 	"github.com/segmentio/kafka-go/protocol/metadata"
 	"github.com/segmentio/kafka-go/protocol/produce"
@@ -33,6 +39,8 @@ type TConn struct {
 }
 
 type TBroker struct {
+	ID       int32     // broker id (1 for a stand-alone broker)
+	cluster  *TCluster // nil for a stand-alone broker
 	Topic    string
 	MaxVer   map[int16]int16
 	FetchMax int // records per fetch response
@@ -40,23 +48,35 @@ type TBroker struct {
 	mu      sync.Mutex
 	conns   []*TConn
 	log     []Msg
+	stall   bool
 	cutKey  int16
 	cutNth  int // 1-based count over all connections; 0 = no cut
 	cutAt   int
 	seen    map[int16]int
 	lastLen map[int16]int // length of the last complete response frame per api key
 	seq     int
-	cutTs   int64 // timestamp field of the list-offsets request whose response was cut (0 if none / other api)
+	cutTs   int64           // timestamp field of the list-offsets request whose response was cut (0 if none / other api)
 	lens    map[int16][]int // lengths of all response frames per api key, in order of arrival
 }
 
 func NewTBroker(topic string) *TBroker {
-	return &TBroker{Topic: topic, FetchMax: 4, seen: map[int16]int{}, lastLen: map[int16]int{}, lens: map[int16][]int{},
-		MaxVer: map[int16]int16{0: 7, 1: 10, 2: 1, 3: 6, 10: 1, 12: 1, 18: 0}}
+	return &TBroker{ID: 1, Topic: topic, FetchMax: 4, seen: map[int16]int{}, lastLen: map[int16]int{}, lens: map[int16][]int{},
+		MaxVer: map[int16]int16{0: 7, 1: 10, 2: 1, 3: 6, 10: 1, 12: 1, 15: 4, 16: 2, 18: 0, 32: 1}}
+}
+
+// SetStall: a cut response is followed by silence instead of a dropped connection.
+func (b *TBroker) SetStall(on bool) {
+	b.mu.Lock()
+	b.stall = on
+	b.mu.Unlock()
 }
 
 // Cut arms the fault: the response to the nth request (from now on) with this api key is cut after k bytes.
 func (b *TBroker) Cut(key int16, nth, k int) {
+	if b.cluster != nil {
+		b.cluster.Cut(key, nth, k)
+		return
+	}
 	b.mu.Lock()
 	b.cutKey, b.cutNth, b.cutAt = key, nth, k
 	b.seen = map[int16]int{}
@@ -157,6 +177,10 @@ func (b *TBroker) response(ver int16, id int32, msg protocol.Message) []byte {
 		}
 		res = r
 	case *metadata.Request:
+		if b.cluster != nil {
+			res = b.cluster.metadata()
+			break
+		}
 		res = &metadata.Response{
 			Brokers: []metadata.ResponseBroker{{NodeID: 1, Host: "broker", Port: 9092}}, ClusterID: "fake", ControllerID: 1,
 			Topics: []metadata.ResponseTopic{{Name: b.Topic, Partitions: []metadata.ResponsePartition{{
@@ -205,9 +229,39 @@ func (b *TBroker) response(ver int16, id int32, msg protocol.Message) []byte {
 				off = 3 // "first offset at or after that time"
 			}
 		}
-		res = &listoffsets.Response{Topics: []listoffsets.ResponseTopic{{Topic: b.Topic, Partitions: []listoffsets.ResponsePartition{{Partition: 0, Timestamp: -1, Offset: off}}}}}
+		part := int32(0)
+		if len(req.Topics) > 0 && len(req.Topics[0].Partitions) > 0 {
+			part = req.Topics[0].Partitions[0].Partition
+		}
+		if b.cluster != nil && off == end {
+			off = 6 + int64(part) // the last offset of partition p of a cluster is 6 + p
+		}
+		res = &listoffsets.Response{Topics: []listoffsets.ResponseTopic{{Topic: b.Topic, Partitions: []listoffsets.ResponsePartition{{Partition: part, Timestamp: -1, Offset: off}}}}}
 	case *findcoordinator.Request:
+		if b.cluster != nil {
+			id := b.cluster.Coordinator(req.Key)
+			res = &findcoordinator.Response{NodeID: id, Host: fmt.Sprintf("b%d", id), Port: 9092}
+			break
+		}
 		res = &findcoordinator.Response{NodeID: 1, Host: "broker", Port: 9092}
+	case *listgroups.Request:
+		// every broker coordinates its own two groups
+		res = &listgroups.Response{Groups: []listgroups.ResponseGroup{
+			{GroupID: fmt.Sprintf("grp-%d-a", b.ID), ProtocolType: "consumer"}, {GroupID: fmt.Sprintf("grp-%d-b", b.ID), ProtocolType: "consumer"}}}
+	case *describegroups.Request:
+		r := &describegroups.Response{}
+		for _, g := range req.Groups {
+			r.Groups = append(r.Groups, describegroups.ResponseGroup{GroupID: g, GroupState: "Stable", ProtocolType: "consumer",
+				ProtocolData: fmt.Sprintf("on-%d", b.ID), Members: []describegroups.ResponseGroupMember{}})
+		}
+		res = r
+	case *describeconfigs.Request:
+		r := &describeconfigs.Response{}
+		for _, rs := range req.Resources {
+			r.Resources = append(r.Resources, describeconfigs.ResponseResource{ResourceType: rs.ResourceType, ResourceName: rs.ResourceName,
+				ConfigEntries: []describeconfigs.ResponseConfigEntry{{ConfigName: "answered.by", ConfigValue: fmt.Sprint(b.ID)}}})
+		}
+		res = r
 	case *heartbeat.Request:
 		res = &heartbeat.Response{}
 	case *fetch.Request:
@@ -282,6 +336,9 @@ func (b *TBroker) serve(c net.Conn, j *TConn) {
 		cut := b.cutNth > 0 && key == b.cutKey && b.seen[key] == b.cutNth
 		k := b.cutAt
 		b.mu.Unlock()
+		if b.cluster != nil {
+			cut, k = b.cluster.arrived(key, b.ID)
+		}
 		f := b.response(ver, id, msg)
 		if f == nil {
 			return
@@ -303,11 +360,111 @@ func (b *TBroker) serve(c net.Conn, j *TConn) {
 			c.Write(f[:k])
 			b.mu.Lock()
 			j.CutAt = k
+			stall := b.stall
 			b.mu.Unlock()
+			if stall {
+				// silent from here on (no FIN): only the client's deadline ends the exchange
+				c.SetReadDeadline(time.Now().Add(20 * time.Second))
+				io.Copy(io.Discard, c)
+			}
 			return // deferred Close: the connection is lost
 		}
 		if _, err := c.Write(f); err != nil {
 			return
 		}
 	}
+}
+
+// TCluster: n TBrokers ("b1:9092" … "bn:9092") behind one Dial; one topic with `parts` partitions, partition p led by
+// broker p%n+1; every broker coordinates the groups whose name hashes onto it.  The cut is cluster-wide: the response
+// to the nth request (in arrival order, over all brokers) with an api key.
+type TCluster struct {
+	Brokers []*TBroker
+	Parts   int
+	Topic   string
+
+	mu     sync.Mutex
+	cutKey int16
+	cutNth int
+	cutAt  int
+	seen   map[int16]int
+	CutOn  int32 // id of the broker whose response was cut (0: none)
+}
+
+func NewTCluster(topic string, n, parts int) *TCluster {
+	c := &TCluster{Parts: parts, Topic: topic, seen: map[int16]int{}}
+	for i := 1; i <= n; i++ {
+		b := NewTBroker(topic)
+		b.ID, b.cluster = int32(i), c
+		c.Brokers = append(c.Brokers, b)
+	}
+	return c
+}
+
+func (c *TCluster) Cut(key int16, nth, k int) {
+	c.mu.Lock()
+	c.cutKey, c.cutNth, c.cutAt, c.seen, c.CutOn = key, nth, k, map[int16]int{}, 0
+	c.mu.Unlock()
+}
+
+func (c *TCluster) arrived(key int16, broker int32) (bool, int) {
+	c.mu.Lock()
+	defer c.mu.Unlock()
+	c.seen[key]++
+	if c.cutNth > 0 && key == c.cutKey && c.seen[key] == c.cutNth {
+		c.CutOn = broker
+		return true, c.cutAt
+	}
+	return false, 0
+}
+
+func (c *TCluster) CutBroker() int32 {
+	c.mu.Lock()
+	defer c.mu.Unlock()
+	return c.CutOn
+}
+
+func (c *TCluster) Coordinator(key string) int32 {
+	h := 0
+	for _, ch := range []byte(key) {
+		h += int(ch)
+	}
+	return int32(h%len(c.Brokers)) + 1
+}
+
+func (c *TCluster) metadata() *metadata.Response {
+	r := &metadata.Response{ClusterID: "fake", ControllerID: 1}
+	for _, b := range c.Brokers {
+		r.Brokers = append(r.Brokers, metadata.ResponseBroker{NodeID: b.ID, Host: fmt.Sprintf("b%d", b.ID), Port: 9092})
+	}
+	t := metadata.ResponseTopic{Name: c.Topic}
+	for p := 0; p < c.Parts; p++ {
+		l := int32(p%len(c.Brokers)) + 1
+		t.Partitions = append(t.Partitions, metadata.ResponsePartition{PartitionIndex: int32(p), LeaderID: l,
+			ReplicaNodes: []int32{l}, IsrNodes: []int32{l}, OfflineReplicas: []int32{}})
+	}
+	r.Topics = []metadata.ResponseTopic{t}
+	return r
+}
+
+// Dial routes "b<i>:9092" to broker i; any other address (the bootstrap address) to broker 1.
+func (c *TCluster) Dial(ctx context.Context, network, address string) (net.Conn, error) {
+	i := 1
+	if strings.HasPrefix(address, "b") {
+		fmt.Sscanf(address, "b%d:", &i)
+	}
+	if i < 1 || i > len(c.Brokers) {
+		i = 1
+	}
+	return c.Brokers[i-1].Dial(ctx, network, address)
+}
+
+// FrameLenNth over all brokers is not defined (requests interleave); the drivers use the length observed in a dry run.
+func (c *TCluster) LastFrameLen(key int16) int {
+	for _, b := range c.Brokers {
+		if n := b.LastFrameLen(key); n > 0 {
+			return n
+		}
+	}
+	return 0
 }
